@@ -9,8 +9,9 @@
 (* bucket of Server.tla along and decides every record with Decision.        *)
 EXTENDS ServerMC
 Trace == ndJsonDeserialize("c12obs.ndjson")
-VARIABLE l
-tvars == <<bucket, b0, last, status, stored, nreq, l>>
+VARIABLES l,     \* next record
+          bad    \* numbers of the records Server.tla does not explain
+tvars == <<bucket, b0, last, status, stored, nreq, l, bad>>
 
 (* JSON arrays arrive as sequences: turn the set-valued fields into sets *)
 NormProg(p) == [p EXCEPT !.counters = ToSet(@), !.stacks = ToSet(@)]
@@ -21,17 +22,6 @@ Keys(s) == {TKey(s[i]) : i \in DOMAIN s}
 
 IsReq(r) == r.op = "req"
 Stores(r) == LET d == Decision(NormReq(r.req)) IN d = "store" \/ (d = "either" /\ r.status = "2xx")
-
-TInit == /\ l = 1 /\ bucket = <<>>
-         /\ b0 = "trace" /\ last = [method |-> "none"] /\ status = "none" /\ stored = FALSE /\ nreq = 0
-
-TNext == /\ l <= Len(Trace)
-         /\ l' = l + 1
-         /\ LET r == Trace[l] IN
-              bucket' = IF ~IsReq(r) THEN <<>>
-                        ELSE IF Stores(r) THEN Put(bucket, Key(NormReq(r.req)), "object")
-                        ELSE bucket
-         /\ UNCHANGED <<b0, last, status, stored, nreq>>
 
 ExplainedRec(r) ==
     LET q == NormReq(r.req)
@@ -51,6 +41,22 @@ ExplainedRec(r) ==
                /\ Keys(r.after) = DOMAIN bucket
                /\ r.touched = <<>>
 
-Explained == (l <= Len(Trace) /\ IsReq(Trace[l])) => ExplainedRec(Trace[l])
+TInit == /\ l = 1 /\ bucket = <<>> /\ bad = <<>>
+         /\ b0 = "trace" /\ last = [method |-> "none"] /\ status = "none" /\ stored = FALSE /\ nreq = 0
+
+(* a record that is not explained is noted and the model bucket is re-synced *)
+(* with the observed listing, so that every finding is reported on its own   *)
+TNext == /\ l <= Len(Trace)
+         /\ l' = l + 1
+         /\ LET r == Trace[l] IN
+              IF ~IsReq(r) THEN bucket' = <<>> /\ bad' = bad
+              ELSE IF ExplainedRec(r)
+                   THEN /\ bad' = bad
+                        /\ bucket' = IF Stores(r) THEN Put(bucket, Key(NormReq(r.req)), "object") ELSE bucket
+                   ELSE /\ bad' = Append(bad, l)
+                        /\ bucket' = [k \in Keys(r.after) |-> "object"]
+         /\ UNCHANGED <<b0, last, status, stored, nreq>>
+
+Explained == l = Len(Trace) + 1 => bad = <<>>
 Accepted == TLCGet("stats").diameter = Len(Trace) + 1
 =============================================================================
